@@ -170,6 +170,12 @@ def catalogue(obj, spec, rnd):
                     np_ = [e["points"][i][0], rnd.choice([y for y in (lo + 1, hi - 3, (lo + hi) // 2 + 517, (lo + hi) // 2 - 101) if y != e["points"][i][1]])]
                     add("payload.envelope-point", pb + ["envs", k + 1, "points", i + 1],
                         lambda r, g=envget, i=i, np_=np_: g(r).points.__setitem__(i, (np_[0], np_[1])), np_, e["points"][i])
+                if k < 3 or rnd.random() < 0.3:      # more points than the legacy tables can hold
+                    npts = rnd.choice([13, 25, 40])
+                    xs = sorted(rnd.sample(range(0, 60000), npts))
+                    pts = [[x, rnd.randint(lo, hi)] for x in xs]
+                    add("payload.envelope-many-points", pb + ["envs", k + 1, "points"],
+                        lambda r, g=envget, pts=pts: setattr(g(r), "points", [(a, b) for a, b in pts]), pts, e["points"])
                 v = 1 - e["enable"]
                 add("payload.envelope-flag", pb + ["envs", k + 1, "enable"], lambda r, g=envget, v=v: setattr(g(r), "enable", bool(v)), v, e["enable"])
                 v = rnd.choice([x for x in (0, 50, 100) if x != e["gain_pct"]])
